@@ -722,6 +722,31 @@ pub fn run(tier: Tier) -> i32 {
     });
     stats.merge(s);
 
+    // layer 4 (thorough): coverage-guided campaign with the same oracle inside the target
+    if tier == Tier::Thorough {
+        let seeds: Vec<Vec<u8>> = corpus.iter().map(|e| { let mut v = vec![e.ty as u8]; v.extend(&e.bytes); v }).filter(|v| v.len() <= 4096).collect();
+        match fuzz_campaign("decode_any", 3_000_000, 4096, ctx.seed, &seeds) {
+            Err(e) => stats.notes.push(format!("coverage-guided layer skipped (infrastructure): {e}")),
+            Ok((crash, stat)) => {
+                stats.class_n("layer4:libfuzzer-runs", 3_000_000);
+                stats.evaluations += 3_000_000;
+                stats.notes.push(format!("libFuzzer decode_any: {stat}"));
+                stats.sample(|| json!({"layer": 4, "engine": "libFuzzer (cargo-fuzz target decode_any)", "runs": 3_000_000, "seed_corpus": seeds.len(), "stats": stat}));
+                if let Some(input) = crash {
+                    if !input.is_empty() {
+                        let idx = input[0] as usize % d.n();
+                        // re-check through the deterministic path before reporting
+                        let r = check_decode(&d, idx, &input[1..], true);
+                        if r.is_ok() {
+                            stats.notes.push(format!("libFuzzer saved an input that does not reproduce deterministically: decoder {} bytes {}", d.name(idx), clip(&hex(&input[1..]), 200)));
+                        }
+                        ctx.record(r, &mut stats);
+                    }
+                }
+            }
+        }
+    }
+
     // (e) debug/release agreement on the deterministic layers
     if let Ok(relbin) = std::env::var("VERIF_RELBIN") {
         let cpath = root.join("target").join("c02-corpus.json");
